@@ -94,14 +94,18 @@ func c19genEdits(s *sim.Sim, n int) []c19edit {
 		case r < 10:
 			e.kind = "empty"
 		case r < 11:
-			e.kind = "deleted"
+			if s.Choose(sim.SWork, 2) == 0 {
+				e.kind = "unreadable" // the path exists but cannot be read as a file
+			} else {
+				e.kind = "deleted"
+			}
 		default:
 			e.kind = "recreated"
 		}
 		version++
 		e.version = version
 		e.content = c19content(e.kind, version)
-		e.torn = e.kind != "deleted" && len(e.content) > 10 && s.Choose(sim.SWork, 4) == 0
+		e.torn = e.kind != "deleted" && e.kind != "unreadable" && len(e.content) > 10 && s.Choose(sim.SWork, 4) == 0
 		switch s.Choose(sim.SWork, 6) {
 		case 0:
 			e.events = []string{"write", "write"}
@@ -156,7 +160,7 @@ func c19Dev(s *sim.Sim, p *sim.Params) {
 	freshTorn := make([]*simResp, len(edits))
 	cuts := make([]int, len(edits))
 	for i, e := range edits {
-		fresh[i] = c19fresh(e.content, e.kind != "deleted")
+		fresh[i] = c19fresh(e.content, e.kind != "deleted" && e.kind != "unreadable")
 		if e.torn {
 			cuts[i] = 1 + s.Choose(sim.SFault, len(e.content)-1)
 			freshTorn[i] = c19fresh(e.content[:cuts[i]], true)
@@ -208,7 +212,17 @@ func c19Dev(s *sim.Sim, p *sim.Params) {
 	sinceLast := time.Duration(0)
 	for i, e := range edits {
 		exists := true
+		os.RemoveAll(file + ".d") // (nothing; keeps the directory variant below self-contained)
+		if fi, err := os.Stat(file); err == nil && fi.IsDir() {
+			os.RemoveAll(file)
+		}
 		switch e.kind {
+		case "unreadable":
+			os.Remove(file)
+			os.Mkdir(file, 0o755)
+			fsnotify.Emit(file, fsnotify.Create)
+			exists = false
+			s.Probe("edit-unreadable")
 		case "deleted":
 			os.Remove(file)
 			fsnotify.Emit(file, fsnotify.Remove)
@@ -288,6 +302,9 @@ func c19Dev(s *sim.Sim, p *sim.Params) {
 		}
 	}
 	// a later valid edit always takes effect
+	if fi, err := os.Stat(file); err == nil && fi.IsDir() {
+		os.RemoveAll(file)
+	}
 	os.WriteFile(file, []byte(c19valid(final)), 0o644)
 	fsnotify.Emit(file, fsnotify.Write)
 	c19wait(s, 2*time.Second)
@@ -400,9 +417,15 @@ func c19Library(s *sim.Sim, p *sim.Params) {
 	edits := c19genEdits(s, 1+s.Choose(sim.SWork, 10))
 	for i, e := range edits {
 		content := e.content
+		if fi, err := os.Stat(file); err == nil && fi.IsDir() {
+			os.RemoveAll(file)
+		}
 		switch e.kind {
 		case "deleted":
 			os.Remove(file)
+		case "unreadable":
+			os.Remove(file)
+			os.Mkdir(file, 0o755)
 		default:
 			os.WriteFile(file, []byte(content), 0o644)
 		}
@@ -416,7 +439,7 @@ func c19Library(s *sim.Sim, p *sim.Params) {
 		wait := []time.Duration{0, 100 * time.Millisecond, 499 * time.Millisecond, 501 * time.Millisecond, 700 * time.Millisecond, 2 * time.Second, 4 * time.Second}[s.Choose(sim.SWork, 7)]
 		logf("edit %d: %s v%d then wait %v (failReload=%v)", i, e.kind, e.version, wait, injected)
 		latestCompiles = false
-		if e.kind != "deleted" {
+		if e.kind != "deleted" && e.kind != "unreadable" {
 			if bc, err := c19compile(content); err == nil {
 				goods = append(goods, bc)
 				latestCompiles = true
@@ -455,6 +478,9 @@ func c19Library(s *sim.Sim, p *sim.Params) {
 	// a later valid edit always takes effect (no injected failure pending, earlier reloads drained)
 	sv.failReload = false
 	c19wait(s, 2*time.Second)
+	if fi, err := os.Stat(file); err == nil && fi.IsDir() {
+		os.RemoveAll(file)
+	}
 	final := 2000 + len(edits)
 	os.WriteFile(file, []byte(c19valid(final)), 0o644)
 	c19wait(s, 3*time.Second)
